@@ -25,6 +25,10 @@ type c19Override struct {
 var c19Overrides = []c19Override{
 	{Name: "absent", URI: func(s, o string) string { return "" }},
 	{Name: "own-id-ipv4-port", URI: func(s, o string) string { return "enode://" + s + "@198.51.100.7:30305" }, Host: "198.51.100.7", Port: "30305"},
+	{Name: "own-id-ipv4-highport", URI: func(s, o string) string { return "enode://" + s + "@198.51.100.7:41100" }, Host: "198.51.100.7", Port: "41100"},
+	{Name: "own-id-ipv4-maxport", URI: func(s, o string) string { return "enode://" + s + "@198.51.100.7:65535" }, Host: "198.51.100.7", Port: "65535"},
+	{Name: "own-id-ipv6-highport", URI: func(s, o string) string { return "enode://" + s + "@[2001:db8::7]:32768" }, Host: "2001:db8::7", Port: "32768"},
+	{Name: "own-id-dns-lowport", URI: func(s, o string) string { return "enode://" + s + "@node.example.org:1" }, Host: "node.example.org", Port: "1"},
 	{Name: "own-id-ipv4-noport", URI: func(s, o string) string { return "enode://" + s + "@198.51.100.7" }, Host: "198.51.100.7"},
 	{Name: "own-id-ipv6", URI: func(s, o string) string { return "enode://" + s + "@[2001:db8::7]:30309" }, Host: "2001:db8::7", Port: "30309"},
 	{Name: "own-id-ipv6-noport", URI: func(s, o string) string { return "enode://" + s + "@[2001:db8::8]" }, Host: "2001:db8::8"},
@@ -165,6 +169,39 @@ func TestC19(t *testing.T) {
 					ev.Case(desc, true)
 					if n%37 == 1 {
 						ev.Sample(detail)
+					}
+					// the same host registers again on the same connection with another override:
+					// what is stored and advertised follows the latest accepted registration
+					if !ov.Exotic && src.Host != "" {
+						ov2 := c19Overrides[(n*7)%len(c19Overrides)]
+						if !ov2.Exotic && !ov2.ForeignID {
+							uri2 := ov2.URI(id.NodeID, other.NodeID)
+							var arg2 interface{} = vlib.ConnectReq(true, "geth", uri2, "")
+							if method == "vipnode_host" {
+								arg2 = pool.HostRequest{Kind: "geth", NodeURI: uri2}
+							}
+							var raw2 interface{}
+							if err2 := w.Signed(conn.AgentSide, id, id.NodeID, method, &raw2, arg2); err2 == nil {
+								st2, _ := w.RawStore.GetNode(store.NodeID(id.NodeID))
+								wh, wp := ov2.Host, ov2.Port
+								if wh == "" {
+									wh = src.Host
+								}
+								if wp == "" {
+									wp = "30303"
+								}
+								pu2, perr2 := ethnode.ParseNodeURI(st2.URI)
+								h2, p2, serr2 := "", "", error(nil)
+								if perr2 == nil {
+									h2, p2, serr2 = net.SplitHostPort(pu2.Host)
+								}
+								ev.Case(desc+"/again="+ov2.Name, true)
+								ev.Count("re-registrations", 1)
+								if perr2 != nil || serr2 != nil || h2 != wh || p2 != wp || pu2.ID() != id.NodeID {
+									ev.Violate("re-registration:stale-or-wrong-address", map[string]interface{}{"case": desc, "second_override": ov2.Name, "stored_uri": strings.Replace(st2.URI, id.NodeID, "<own-id>", -1), "want_host": wh, "want_port": wp})
+								}
+							}
+						}
 					}
 					// make the host stale for later peer requests: close its connection
 					conn.Close()
